@@ -4,6 +4,7 @@ pub struct Bytes<'a> { _p: core::marker::PhantomData<&'a ()> }
 // the bytes a `Bytes` value denotes (unit bytes proves that size / ordering / equality of Bytes are those of this view)
 pub uninterp spec fn bytes_view(b: Bytes) -> Seq<u8>;
 // serialised size of a node's entries: `nd_bytes`, what NodeData::size is PROVED to return in unit split
+//@include prelude/nd_len.rs
 //@include prelude/nd_size_spec.rs
 // a node either has no page (0: new, or already given back) or names a run of tree pages
 spec fn node_page_ok(n: Node) -> bool {
